@@ -1163,6 +1163,13 @@ func (u *udpCase) opPkt(client *net.UDPAddr, unknown []*specKey, opts pktOpts) {
 			if e.client != cs {
 				out.Oracle("C16", "datagram of %s reported on the association of %s", cs, e.client)
 			}
+			if e.s == "ERR_WRITE" {
+				// the send was attempted and refused by the kernel (port 0): for the association this IS a client
+				// datagram on it (the deadline logic ran), so "its only traffic was one DNS query" no longer holds
+				w := u.writes[cs]
+				w[0]++
+				u.writes[cs] = w
+			}
 		case "search", "natadd":
 		default:
 			u.handleAsync(e)
